@@ -130,7 +130,7 @@ pub fn run(tier: &str, seed: u64) -> Report {
             if a != b {
               let slot_keys: std::collections::HashSet<ModuleSpecifier> = g.verif_slots().into_iter().map(|(k, _, _)| k.clone()).collect();
               let chain_has_slot_on_source = [&dep.maybe_code, &dep.maybe_type].iter().any(|r| match r.maybe_specifier() {
-                Some(t) => crate::c14::chain_facts(&g, &slot_keys, t).slot_on_source,
+                Some(t) => crate::c14::chain_facts(&g, &slot_keys, t).entry_on_source(),
                 None => false,
               });
               // … or on the chain of the types dependency of the module the dependency resolves to
@@ -140,7 +140,7 @@ pub fn run(tier: &str, seed: u64) -> Report {
                   .and_then(|m| m.js())
                   .and_then(|js| js.maybe_types_dependency.as_ref())
                   .and_then(|td| td.dependency.maybe_specifier())
-                  .map(|t| crate::c14::chain_facts(&g, &slot_keys, t).slot_on_source)
+                  .map(|t| crate::c14::chain_facts(&g, &slot_keys, t).entry_on_source())
                   .unwrap_or(false)
               });
               let shape = if g.redirects.contains_key(m.specifier()) || chain_has_slot_on_source || types_chain_has_slot_on_source {
